@@ -544,6 +544,6 @@ func TestEnumBurstWhileClientBusy(t *testing.T) {
 		}
 		mnc.Close()
 		in.Close()
-		stats.Enumerated(int64(n), int64(n), "burstWhileClientBusy")
+		stats.Enumerated(1, 1, "burstWhileClientBusy")
 	}
 }
